@@ -28,7 +28,7 @@ OPS = BINARY + SUBDOM + SCALAR + UNARY + CV
 
 @st.composite
 def cases(draw, tier='quick'):
-    uni = draw(gen.domains(1, 5, 1, 4, cap=1024))
+    uni = draw(gen.domains(1, 5 if tier == 'quick' else 6, 1, 4 if tier == 'quick' else 5, cap=1024 if tier == 'quick' else 4096))
     attrs = uni['attrs']
     op = draw(st.sampled_from(OPS))
     a = draw(gen.ordered_subset(attrs, 1, len(attrs)))
